@@ -70,12 +70,172 @@ def model_exprs(model):
     return out
 
 
-def describe(obj) -> dict:
-    """srepr per attribute (ordered), for comparison across processes."""
+def attr_token(v) -> str:
+    """Type and identity of a non-SymPy attribute value, comparable across processes."""
+    import inspect
+
+    if v is None:
+        return "NoneType None"
+    if inspect.isclass(v):
+        return f"class {v.__module__}.{v.__qualname__}"
+    if inspect.isfunction(v):
+        return f"function {v.__module__}.{v.__qualname__}"
+    return f"{type(v).__name__} {v!r}"
+
+
+def dataclass_nodes(expr):
+    import dataclasses
+
+    import sympy as sp
+
+    return [n for n in sp.preorder_traversal(expr) if dataclasses.is_dataclass(n) and not isinstance(n, type)]
+
+
+def attr_digest(expr) -> list:
+    """(class, field, type-and-value token) of every non-SymPy attribute of every node."""
+    import dataclasses
+
+    out = []
+    for n in dataclass_nodes(expr):
+        for f in dataclasses.fields(n):
+            if not f.metadata.get("sympify"):
+                out.append([f"{type(n).__module__}.{type(n).__qualname__}", f.name, attr_token(getattr(n, f.name))])
+    return out
+
+
+def unfold_digest(expr) -> list:
+    """`evaluate()` of every node that has one (one unfolding step each; exceptions recorded)."""
+    import sympy as sp
+
+    import dataclasses
+
+    out = []
+    for n in dataclass_nodes(expr):
+        ev = getattr(n, "evaluate", None)
+        # only nodes that carry non-SymPy attributes: those are what pickling can get wrong without
+        # == noticing (and it keeps evaluate() away from e.g. BlattWeisskopfSquared with a non-integer
+        # numeric L, which computes for minutes)
+        if callable(ev) and any(not f.metadata.get("sympify") for f in dataclasses.fields(n)):
+            try:
+                out.append(sp.srepr(c14.with_cap(20.0, ev)))
+            except c14._Timeout:  # noqa: SLF001
+                out.append("TIMEOUT")
+            except Exception as e:  # noqa: BLE001
+                out.append(f"EXC {type(e).__name__}: {e}"[:200])
+    return _digest(out)
+
+
+def digests_agree(a, b) -> bool:
+    """Equal, where both sides finished within the time cap."""
+    if "TIMEOUT" in a or "TIMEOUT" in b:
+        return len(a) == len(b) and all(x == y for x, y in zip(a, b) if "TIMEOUT" not in (x, y))
+    return a == b
+
+
+def _digest(items) -> list:
+    import hashlib
+    import re
+
+    # dummies get a fresh index in every call: mask it
+    return [hashlib.sha1(re.sub(r"dummy_index=\d+", "dummy_index=*", s).encode()).hexdigest()[:16] if not s.startswith(("EXC", "TIMEOUT")) else s
+            for s in items]
+
+
+def attribute_differences(orig, loaded) -> list[str]:
+    """Non-SymPy attribute VALUES of the loaded object, field by field (type, and identity for
+    classes/functions/None, equality otherwise) — `==` cannot see these: it goes through
+    `_hashable_content`."""
+    import dataclasses
+    import inspect
+
+    diffs = []
+    a_nodes, b_nodes = dataclass_nodes(orig), dataclass_nodes(loaded)
+    if len(a_nodes) != len(b_nodes):
+        return [f"{len(a_nodes)} unevaluated nodes before, {len(b_nodes)} after"]
+    for a, b in zip(a_nodes, b_nodes):
+        if type(a) is not type(b):
+            diffs.append(f"node type {type(a).__name__} -> {type(b).__name__}")
+            continue
+        for f in dataclasses.fields(a):
+            if f.metadata.get("sympify"):
+                continue
+            va, vb = getattr(a, f.name), getattr(b, f.name, "<missing>")
+            by_identity = va is None or inspect.isclass(va) or inspect.isfunction(va)
+            if type(va) is not type(vb) or (by_identity and va is not vb) or (not by_identity and va != vb):
+                diffs.append(f"{type(a).__name__}.{f.name}: {attr_token(va)} -> {attr_token(vb) if vb != '<missing>' else vb}")
+    return diffs
+
+
+def container_behaviour(model) -> dict:
+    """Outcome (value or exception class) of the public API of every attribute container."""
+    def run(fn):
+        try:
+            return repr(fn())
+        except Exception as e:  # noqa: BLE001
+            return f"EXC {type(e).__name__}"
+
+    pd = model.parameter_defaults
+    keys = list(pd)
+    rep = {
+        "len": run(lambda: len(pd)),
+        "iteration": run(lambda: [str(k) for k in pd]),
+        "by_symbol": [run(lambda k=k: pd[k]) for k in keys],
+        "by_name": [run(lambda k=k: pd[str(k)]) for k in keys],
+        "by_index": [run(lambda i=i: pd[i]) for i in range(len(keys))],
+        "contains_symbol": [run(lambda k=k: k in pd) for k in keys],
+        "missing_name": run(lambda: pd["no such parameter"]),
+        "missing_index": run(lambda: pd[len(keys)]),
+        "items": run(lambda: [(str(k), v) for k, v in pd.items()]),
+        "values": run(lambda: list(pd.values())),
+        "repr": run(lambda: repr(pd)),
+        "xreplace_with_mapping": run(lambda: str(model.intensity.xreplace(pd))[:200]),
+    }
+    if keys:
+        k0 = keys[0]
+        old = run(lambda: pd[k0])
+
+        def assign(key):
+            v = pd[k0]
+            pd[key] = v  # same value: observable state unchanged
+            return pd[k0]
+
+        rep["assign_by_symbol"] = run(lambda: assign(k0))
+        rep["assign_by_name"] = run(lambda: assign(str(k0)))
+        rep["assign_by_index"] = run(lambda: assign(0))
+        rep["unchanged_after_assignments"] = run(lambda: repr(pd[k0]) == old)
+    for name in ("amplitudes", "kinematic_variables", "components"):
+        d = getattr(model, name)
+        ks = list(d)
+        rep[name] = {
+            "type": type(d).__name__, "len": run(lambda d=d: len(d)), "keys": run(lambda d=d: [str(k) for k in d.keys()]),
+            "first": run(lambda d=d, ks=ks: str(d[ks[0]])[:100] if ks else None),
+            "last": run(lambda d=d, ks=ks: str(d[ks[-1]])[:100] if ks else None),
+            "values_len": run(lambda d=d: len(list(d.values()))),
+            "missing": run(lambda d=d: d["no such key"]),
+            "reversed_keys": run(lambda d=d: [str(k) for k in reversed(d)][:3]),
+        }
+    return rep
+
+
+def model_unfold_digest(model) -> str:
+    import sympy as sp
+
+    try:
+        return _digest([sp.srepr(model.expression.doit())])[0]
+    except Exception as e:  # noqa: BLE001
+        return f"EXC {type(e).__name__}: {e}"[:200]
+
+
+def describe(obj, deep: bool = True) -> dict:
+    """srepr per attribute (ordered), attribute values, unfolding, container behaviour:
+    for comparison across processes."""
     import sympy as sp
 
     if hasattr(obj, "__attrs_attrs__"):
-        d = {}
+        d = {"attrs": [x for _, e in model_exprs(obj) for x in attr_digest(e)],
+             "behaviour": container_behaviour(obj)}
+        if deep:
+            d["unfold"] = model_unfold_digest(obj)
         for a in ATTRS:
             v = getattr(obj, a)
             if a == "reaction_info":
@@ -89,7 +249,7 @@ def describe(obj) -> dict:
             else:
                 d[a] = [(sp.srepr(k) if isinstance(k, sp.Basic) else k, sp.srepr(val)) for k, val in v.items()]
         return d
-    return {"srepr": sp.srepr(obj)}
+    return {"srepr": sp.srepr(obj), "attrs": attr_digest(obj), "unfold": unfold_digest(obj)}
 
 
 def numeric_value(model) -> str:
@@ -99,11 +259,14 @@ def numeric_value(model) -> str:
     import sympy as sp
 
     rng = random.Random(2024)
-    expr = model.expression.xreplace(dict(model.parameter_defaults))
-    syms = sorted(expr.free_symbols, key=str)
-    vals = {s: sp.Float(rng.uniform(0.35, 1.3), 20) for s in syms}
-    val = sp.N(expr.xreplace(vals).doit(), 15)
-    return str(complex(val))
+    try:
+        expr = model.expression.xreplace(dict(model.parameter_defaults))
+        syms = sorted(expr.free_symbols, key=str)
+        vals = {s: sp.Float(rng.uniform(0.35, 1.3), 20) for s in syms}
+        val = sp.N(expr.xreplace(vals).doit(), 15)
+        return str(complex(val))
+    except Exception as e:  # noqa: BLE001
+        return f"EXC {type(e).__name__}: {e}"[:200]
 
 
 def compare_models(a, b) -> list[str]:
@@ -115,7 +278,16 @@ def compare_models(a, b) -> list[str]:
             diffs.append(f"{name}: == is False")
         if hasattr(va, "items") and list(va.keys()) != list(vb.keys()):
             diffs.append(f"{name}: key order differs")
-    da, db = describe(a), describe(b)
+    da, db = describe(a, deep=False), describe(b, deep=False)
+    for i, ((lab, ea), (_, eb)) in enumerate(zip(model_exprs(a), model_exprs(b))):
+        ad = attribute_differences(ea, eb)
+        if ad:
+            diffs.append(f"{lab}: non-SymPy attribute values differ: {ad[:3]}")
+            break
+    if da["behaviour"] != db["behaviour"]:
+        bad = [k for k in da["behaviour"] if da["behaviour"][k] != db["behaviour"].get(k)]
+        diffs.append("containers behave differently after loading: " + "; ".join(
+            f"{k}: {str(da['behaviour'][k])[:120]} -> {str(db['behaviour'].get(k))[:120]}" for k in bad[:4]))
     for name in ATTRS:
         if da[name] != db[name]:
             first = ""
@@ -140,7 +312,7 @@ from tools.corr import C15
 objs = pickle.load(open(sys.argv[1], "rb"))
 out = []
 for kind, obj in objs:
-    d = C15.describe(obj)
+    d = C15.describe(obj, deep=(kind != "model-shallow"))
     if kind == "model":
         d["numeric"] = C15.numeric_value(obj)
     out.append(d)
